@@ -4,6 +4,7 @@ import (
 	"encoding/json"
 	"flag"
 	"fmt"
+	"runtime/debug"
 	"sort"
 	"testing"
 	"time"
@@ -37,7 +38,8 @@ type action struct {
 
 type histCase struct {
 	Actions []action `json:"actions"`
-	Meta    bool     `json:"meta"`
+	Lua     bool     `json:"lua"`  // also replayed as Lua code
+	Meta    bool     `json:"meta"` // ... and on a table with logging metamethods
 	Note    string   `json:"note,omitempty"`
 }
 
@@ -192,6 +194,12 @@ func churnKey(fam string, i int) Sp {
 		return spInt(int64(-10 - i))
 	case "frac":
 		return spFloat(float64(i) + 0.25)
+	case "refs": // booleans, tables, functions
+		all := append([]Sp{spTrue, spFalse}, refNames...)
+		if i < len(all) {
+			return all[i]
+		}
+		return spStr(fmt.Sprintf("r%d", i))
 	case "desc": // descending positive integers: they sit in the hash part until the array grows over them
 		return spInt(int64(64 - i))
 	}
@@ -262,7 +270,8 @@ var (
 	genSmallFloat = rapid.SampledFrom(smallFloats)
 	genOther      = rapid.SampledFrom(otherKeys)
 	genLowInt     = rapid.Map(rapid.Int64Range(1, 20), spInt)
-	genKey        = rapid.OneOf(genSmallInt, genSmallInt, genLowInt, genLowInt, genSmallFloat, genOther, genOther)
+	genRefBool    = rapid.SampledFrom(append([]Sp{spTrue, spFalse}, refNames...))
+	genKey        = rapid.OneOf(genSmallInt, genSmallInt, genLowInt, genLowInt, genSmallFloat, genOther, genOther, genRefBool)
 	genSpecialVal = rapid.SampledFrom([]Sp{spFalse, spTrue, spStr(""), spStr("x"), spFloat(0.5), nanKey, spInt(0), spFloat(1), "T1", "L1", "G1"})
 	genAssignVia  = rapid.SampledFrom([]string{"set", "rt", "index", "index"})
 	genClearVia   = rapid.SampledFrom([]string{"set", "rt", "index", "index", "reset"})
@@ -382,7 +391,7 @@ func drawAction(t *rapid.T, op string, m *model, n int) action {
 		return action{Op: "droptail", Via: genClearVia.Draw(t, "via"), N: rapid.IntRange(1, 20).Draw(t, "n")}
 	case "churn":
 		return action{Op: "churn", Via: genAssignVia.Draw(t, "via"),
-			Fam: rapid.SampledFrom([]string{"str", "longstr", "sparse", "neg", "frac", "desc", "even"}).Draw(t, "family"),
+			Fam: rapid.SampledFrom([]string{"str", "longstr", "sparse", "neg", "frac", "desc", "even", "refs"}).Draw(t, "family"),
 			N:   rapid.IntRange(3, 24).Draw(t, "n"), M: rapid.IntRange(0, 2).Draw(t, "removeMode")}
 	case "bad":
 		return action{Op: "bad"}
@@ -394,7 +403,10 @@ var actionNames = []string{"set", "set2:set", "overwrite", "setnil", "setnil2:se
 
 // ------------------------------------------------------------ running a case
 
-func finishHistory(w *world, s *stepper, meta bool) (msg string, poisoned bool) {
+func finishHistory(w *world, s *stepper, lua, meta bool) (msg string, poisoned bool) {
+	if !lua {
+		return "", false
+	}
 	if msg, po := luaReplay(w, s.prims, false); msg != "" {
 		return msg, po
 	}
@@ -430,6 +442,9 @@ func classify(rec *ev.Recorder, s *stepper, c histCase) {
 		rec.Class("history:max-keys<=32")
 	default:
 		rec.Class("history:max-keys>32")
+	}
+	if c.Lua {
+		rec.Class("history:also-replayed-as-Lua")
 	}
 	if c.Meta {
 		rec.Class("history:also-replayed-with-logger-metatable")
@@ -470,7 +485,7 @@ func runCase(w *world, kf kfSet, rec *ev.Recorder, c histCase) string {
 			return fmt.Sprintf("Go API route, action %d (%s), step %d: %s\n  model before the failing check: %s", i, actionText(a), len(s.prims), msg, s.g.m.describe())
 		}
 	}
-	msg, _ := finishHistory(w, s, c.Meta)
+	msg, _ := finishHistory(w, s, c.Lua, c.Meta)
 	return msg
 }
 
@@ -526,7 +541,7 @@ return function(large, a, x, n, ...)
   t[a] = x
   for i = 1, n do
     local b = B[i]
-    obs(rawequal(a, b), a == b, t[b] == x, rawget(t, b) == x)
+    obs("p", (rawequal(a, b) and 1 or 0) + (a == b and 2 or 0) + (t[b] == x and 4 or 0) + (rawget(t, b) == x and 8 or 0))
   end
 end
 `
@@ -597,17 +612,18 @@ func checkPairs(rec *ev.Recorder, w *world, kf kfSet) {
 			for _, b := range bs {
 				args = append(args, w.val(b))
 			}
-			w.events = w.events[:0]
+			w.flat = w.flat[:0]
 			tr := w.s.Call(luaFn, 50_000_000, 0, args...)
-			if tr.Panic != "" || tr.Err != "" || tr.Killed || len(w.events) != len(bs) {
-				report(pairCase{a, a, route}, "Lua pair driver failed for a=%s: %s (%d observations for %d values)", a.pretty(), tr.String(), len(w.events), len(bs))
+			events := w.records()
+			if tr.Panic != "" || tr.Err != "" || tr.Killed || len(events) != len(bs) {
+				report(pairCase{a, a, route}, "Lua pair driver failed for a=%s: %s (%d observations for %d values)", a.pretty(), tr.String(), len(events), len(bs))
 				continue
 			}
 			for i, b := range bs {
 				rec.Eval()
-				e := w.events[i]
+				mask, _ := events[i][1].TryInt()
 				want, open := manualEqual(a, b)
-				re, eqop, idx, raw := w.enc(e[0]) == spTrue, w.enc(e[1]) == spTrue, w.enc(e[2]) == spTrue, w.enc(e[3]) == spTrue
+				re, eqop, idx, raw := mask&1 != 0, mask&2 != 0, mask&4 != 0, mask&8 != 0
 				if !open && (re != want || eqop != want) {
 					report(pairCase{a, b, route}, "Lua: rawequal(%s, %s) is %v and == is %v, the manual gives %v", a.pretty(), b.pretty(), re, eqop, want)
 					continue
@@ -704,6 +720,13 @@ func TestC03(t *testing.T) {
 	rec.Assume("next is only ever called with nil or the key returned by the previous call; no key is inserted during a traversal")
 	rec.Assume("iteration order depends on Go's per-process hash seed: chain shapes are sampled across shards/processes; the oracle never depends on order")
 
+	// a Go panic that escapes (from golua while a runtime is created, or from this
+	// harness) must never look like a pass
+	defer func() {
+		if p := recover(); p != nil {
+			rec.Violation("panic", fmt.Sprint(p), fmt.Sprintf("Go panic outside a guarded call: %v\n%s", p, debug.Stack()))
+		}
+	}()
 	w := newWorld()
 	defer func() { w.s.Close() }()
 
@@ -714,6 +737,9 @@ func TestC03(t *testing.T) {
 		}
 		rec.Eval()
 		switch rf.Kind {
+		case "panic":
+			// the panic happened while the runtime was created (above) or inside the
+			// harness; reaching this point means a runtime can be created
 		case "pair":
 			var c pairCase
 			if err := json.Unmarshal(rf.Case, &c); err != nil {
@@ -762,9 +788,13 @@ func TestC03(t *testing.T) {
 		rec.Assume("table shape not readable by reflection: histories cannot be classified as migrating")
 	}
 	RunRapid(rec, "C03/history", rec.Pick(750, 30000), 0, func(t *rapid.T) {
-		meta := rapid.Bool().Draw(t, "alsoLoggerMetatable")
+		lua := true
+		if rec.Thorough() {
+			lua = rapid.IntRange(0, 3).Draw(t, "alsoAsLua") == 0
+		}
+		meta := rapid.Bool().Draw(t, "alsoLoggerMetatable") && lua
 		s := newStepper(w, kf, rec)
-		c := histCase{Meta: meta, Note: "traversal order depends on the process's hash seed; a replay in another process may take another order"}
+		c := histCase{Lua: lua, Meta: meta, Note: "traversal order depends on the process's hash seed; a replay in another process may take another order"}
 		fail := func(msg string) {
 			FailCase(t, "history", c, "%s", msg)
 		}
@@ -789,7 +819,7 @@ func TestC03(t *testing.T) {
 		}
 		acts[""] = func(t *rapid.T) {} // the invariant is checked after every primitive step inside step()
 		t.Repeat(acts)
-		msg, poisoned := finishHistory(w, s, meta)
+		msg, poisoned := finishHistory(w, s, lua, meta)
 		if poisoned {
 			w.s.Close()
 			w.init()
